@@ -1502,6 +1502,14 @@ void ArrayManager::setMultidimensionalArrayElement(
         throw std::runtime_error("Array index out of bounds");
     }
 
+    // same check as a one-dimensional element store
+    // (CommonOperations::assign_array_element_safe)
+    if (interpreter_ && base_type != TYPE_POINTER && !var.is_pointer) {
+        interpreter_->check_type_range(base_type, adjusted_value,
+                                       "<multidimensional array element>",
+                                       var.is_unsigned);
+    }
+
     long double numeric_value = static_cast<long double>(adjusted_value);
     set_numeric_storage_value(var, static_cast<size_t>(flat_index),
                               numeric_value, true, base_type);
